@@ -330,6 +330,7 @@ reg("C12",
     *[H("c12", "c12_frozen_%d" % k, bounds="rows %d/8 of the frozen snapshot (oracle-data/tls-ciphersuites.frozen.txt): present and unaltered" % k,
         timeout=900, funcs=_CF) for k in range(8)],
     H("c12", "c12_from_name_neg_a", tier="thorough", bounds="same registry name: strict prefix and one-letter case flip find nothing (concrete)", timeout=1500, mem=12, funcs=["TlsCipherSuite::from_name"]),
+    H("c12", "c12_from_name_case_a", bounds="same registry name with the case of its first letter flipped finds nothing (concrete)", timeout=1500, mem=12, funcs=["TlsCipherSuite::from_name"]),
     H("c12", "c12_from_name_a", bounds="one registry name (seed-selected), concrete: both lookup routes", timeout=1500, mem=12, funcs=["TlsCipherSuite::from_name", "TryFrom<&str>"]),
     H("c12", "c12_from_name_sym_a", tier="thorough", bounds="one registry name with one symbolic ASCII byte at a seed-selected position (352 x string compare)", timeout=3000, mem=20, funcs=["TlsCipherSuite::from_name"]),
     H("c12", "c12_from_name_b", tier="thorough", bounds="second registry name, concrete", timeout=900, mem=12, funcs=["TlsCipherSuite::from_name", "TryFrom<&str>"]),
@@ -448,7 +449,6 @@ reg("C03", *_pick("C04", ["c04_dispatch_wiring", "c04_e2e_finished_3", "c04_e2e_
 # ------------------------------------------------------------------------------------------------ C01
 reg("C01",
     H("c01", "c01_heartbeat_any_len_argument", c01=True, timeout=900, mem=12, bounds="all Kani default checks; symbolic input (see harness)", funcs=["heartbeat_any_len_argument"]),
-    H("c01", "c01_heap_client_hello_lists", c01=True, tier="thorough", timeout=1500, mem=12, bounds="all Kani default checks; symbolic input (see harness)", funcs=["heap_client_hello_lists"]),
     H("c01", "c01_heap_certificate_chain", c01=True, timeout=900, mem=12, bounds="all Kani default checks; symbolic input (see harness)", funcs=["heap_certificate_chain"]),
     H("c01", "c01_fmt_display_only", c01=True, timeout=900, mem=12, bounds="all Kani default checks; symbolic input (see harness)", funcs=["fmt_display_only"]),
     H("c01", "c01_debug_record_header_alert_signed", c01=True, timeout=900, mem=12, bounds="all Kani default checks; symbolic input (see harness)", funcs=["debug_record_header_alert_signed"]),
